@@ -82,7 +82,7 @@ Lemma take_aux_spec bs n acc :
   take_pos_aux bs n acc =
   if n <=? len bs then Some (rev acc ++ firstn (N.to_nat n) bs, skipn (N.to_nat n) bs) else None.
 Proof.
-  revert n acc. induction bs as [|b r IH]; intros n acc; cbn [take_pos_aux].
+  revert n acc. induction bs as [|b r IH]; intros n acc; cbn [take_pos_aux]; rewrite ?rev_append_rev, ?app_nil_r.
   - rewrite len_eq; cbn [length].
     destruct (N.eqb_spec n 0) as [->|Hn]; cbn.
     + now rewrite app_nil_r.
